@@ -96,6 +96,18 @@ def apply(src, site):
     return "\n".join(lines)
 
 
+def summary_of(stdout):
+    """(verdict line numbers, counters line, total rejections) of one check run - used to sub-classify survivors."""
+    import re
+
+    verdict = next((ln for ln in stdout.split("\n") if "verdict=" in ln), "")
+    verdict = re.sub(r" wall=[0-9.]+s", "", verdict)
+    counters = next((ln for ln in stdout.split("\n") if ln.strip().startswith("counters:")), "")
+    rej_line = next((ln for ln in stdout.split("\n") if ln.strip().startswith("rejected:")), "")
+    rej = sum(int(x) for x in re.findall(r"=(\d+)", rej_line))
+    return verdict, counters, rej
+
+
 def main():
     pid = sys.argv[1]
     n = int(sys.argv[2]) if len(sys.argv) > 2 else 20
@@ -111,6 +123,8 @@ def main():
     if not os.path.exists(cov_path) or os.environ.get("VERIF_RECOVER"):
         subprocess.run([os.path.join(VERIF, "check"), pid, "--no-evidence"], cwd=VERIF, env=dict(os.environ, VERIF_COVER="1"), capture_output=True, text=True)
     cover = json.load(open(cov_path)) if os.path.exists(cov_path) else {}
+    base = subprocess.run([os.path.join(VERIF, "check"), pid, "--no-evidence"], cwd=VERIF, capture_output=True, text=True)
+    base_sum = summary_of(base.stdout)
     allsites = []
     uncovered = 0
     for f in files:
@@ -173,6 +187,13 @@ def main():
                             rec["first"] = next((ln for ln in r.stdout.split("\n") if ln.startswith("INCONCLUSIVE")), "")[:200]
                         else:
                             rec["result"] = "survived"
+                            v, cn, rj = summary_of(r.stdout)
+                            if (v, cn, rj) == base_sum:
+                                rec["survivor_class"] = "no-observable-effect-on-the-workload"
+                            elif rj > base_sum[2]:
+                                rec["survivor_class"] = f"compiler-crashes-more-often(+{rj - base_sum[2]})"
+                            else:
+                                rec["survivor_class"] = "behaviour-changed-property-kept"
                     except subprocess.TimeoutExpired:
                         rec["result"] = "inconclusive"
                         rec["first"] = "check timeout"
@@ -181,7 +202,7 @@ def main():
                 log.write(json.dumps(rec) + "\n")
                 log.flush()
                 open(path, "w").write(src)
-                print(f"MUT {pid} {f}:{site[0][0]} {site[2]!r}->{site[3]!r} {rec['result']}", flush=True)
+                print(f"MUT {pid} {f}:{site[0][0]} {site[2]!r}->{site[3]!r} {rec['result']} {rec.get('survivor_class', '')}", flush=True)
     finally:
         shutil.rmtree(scratch, ignore_errors=True)
     print(f"MUTATION-SUMMARY {pid} covered_sites={len(allsites)} uncovered_sites={uncovered} judged={done} {tally}")
